@@ -347,6 +347,9 @@ def model_history(ctx, base_seed, flavour, ops, cls="ConvexPolyhedron"):
                             ctx.disagree("to_hoomd:centroid-reads", case, [v.tolist() for v in rec.values[:2]])
                             return
                         code = [5 if cls == "Polyhedron" else 4, c_first, c_last]
+                # snapshot: ConvexSpheropolygon.to_hoomd hands out the live vertex array (aliasing is C15/C19's
+                # business), which later in-place mutations of the history would change
+                hoomd = dict(hoomd, vertices=np.array(hoomd["vertices"], dtype=float, copy=True))
                 ctx.count("model-op:to_hoomd")
             else:
                 apply_op(obj, op)
